@@ -116,3 +116,14 @@ From DV.proofs Require Import ClassFacts CF_C01.
 Theorem C02_every_parameter_a_target_path_names_is_supplied : forallb param_row_ok param_table = true.
 Proof. exact target_path_parameters_are_supplied. Qed.
 Print Assumptions C02_every_parameter_a_target_path_names_is_supplied.
+
+(* CropAndPad's box path (regenerated `crop_and_pad_bbox`): for every box, every crop window and every pad amounts
+   the box is moved by BOTH shifts of the image path -- minus the crop origin when something is cropped, plus the
+   near-side pad when something is padded -- and expressed in the result frame *)
+From DV.gen Require Import Gen_crops_functional.
+From DV.proofs Require Import CropPadBox.
+Theorem C02_CropAndPad_box_gets_the_crop_and_the_pad_shift : forall b cp pp r c s rr rc rs,
+  (0 < r)%Z -> (0 < c)%Z -> (0 < s)%Z -> (0 < rr)%Z -> (0 < rc)%Z -> (0 < rs)%Z ->
+  crop_and_pad_bbox b cp pp r c s rr rc rs = Ok (moved_box b cp pp r c s rr rc rs).
+Proof. exact crop_and_pad_bbox_spec. Qed.
+Print Assumptions C02_CropAndPad_box_gets_the_crop_and_the_pad_shift.
